@@ -51,16 +51,16 @@ def fresh(tag: str):
 
 def to_bool(v):
 	t, x = v
-	if t == 'list':
-		raise Unsupported('list in a boolean context')
+	if t in ('list', 'obj'):
+		raise Unsupported(f'{t} in a boolean context')
 	return x if t == 'bool' else x != bv(0)
 
 
 def to_int(v):
 	"""the 64-bit pattern of a scalar ('size' = C++ std::size_t keeps its bits: only comparisons, remainders and shifts read it as unsigned)"""
 	t, x = v
-	if t == 'list':
-		raise Unsupported('list in an arithmetic context')
+	if t in ('list', 'obj'):
+		raise Unsupported(f'{t} in an arithmetic context')
 	return z3.If(x, bv(1), bv(0)) if t == 'bool' else x
 
 
@@ -76,13 +76,39 @@ def select(elems: list, idx, default):
 	return out
 
 
+def attrs_read(e) -> set:
+	"""names of the members of `this` an expression reads"""
+	out = set()
+	if isinstance(e, tuple):
+		if len(e) == 3 and e[0] == 'attr' and e[1] == ('var', 'this'):
+			out.add(e[2])
+		for x in e:
+			out |= attrs_read(x)
+	elif isinstance(e, list):
+		for x in e:
+			out |= attrs_read(x)
+	return out
+
+
+def flat(stmts: list) -> list:
+	out = []
+	for st in stmts:
+		out.append(st)
+		for x in st:
+			if isinstance(x, list) and x and isinstance(x[0], tuple):
+				out.extend(flat(x))
+	return out
+
+
 class Outcome:
 	"""guarded result of running a block: list of (condition, kind, value) with kind in return / raise / fall / break / continue"""
 
 
 class Machine:
-	def __init__(self, functions: dict, lang: str, premises: Premises | None, unroll: int) -> None:
+	def __init__(self, functions: dict, lang: str, premises: Premises | None, unroll: int, classes: dict | None = None) -> None:
 		self.functions = functions  # name -> (params [(name, type, default_expr|None)], body, return_type)
+		self.classes_def = classes or {}  # name -> {'base', 'fields', 'methods', 'inits', 'super_args'}: an object value is ('obj', (class name, {field: value}))
+		self.cur_class: list = []  # classes whose method bodies are being executed (C++ resolves this->m() statically)
 		self.lang = lang  # 'py' | 'cpp'
 		self.premises = premises  # only the Python run records premises
 		self.unroll = unroll
@@ -318,6 +344,21 @@ class Machine:
 				i = i + step
 			self.premise(z3.Not(z3.And(running, z3.If(step > bv(0), i < stop, i > stop))), guard)
 			return res
+		if k == 'attr':
+			ov = self.expr(e[1], env, guard)
+			if ov[0] != 'obj' or e[2] not in ov[1][1]:
+				raise Unsupported(f'attribute {e[2]}')
+			return ov[1][1][e[2]]
+		if k == 'mcall':
+			ov = self.expr(e[1], env, guard)
+			if ov[0] != 'obj':
+				raise Unsupported('method call on a non-object')
+			value, after = self.invoke_method(ov, e[2], [self.expr(a, env, guard) for a in e[3]], guard, static=self.cur_class[-1] if (self.lang == 'cpp' and e[1] == ('var', 'this') and self.cur_class) else None, via_self=e[1] == ('var', 'self'))
+			if after is not ov and any(after[1][1][f] is not ov[1][1][f] for f in after[1][1]):
+				raise Unsupported('a method that writes fields, called inside an expression')
+			if value is None:
+				raise Unsupported('method without value in an expression')
+			return value
 		if k == 'comma':
 			self.expr(e[1], env, guard)
 			return self.expr(e[2], env, guard)
@@ -361,7 +402,108 @@ class Machine:
 			return ('bool', to_bool(args[0]))
 		return None
 
+	def lookup_method(self, cls: str, name: str):
+		c = cls
+		while c is not None:
+			d = self.classes_def.get(c)
+			if d is None:
+				break
+			if name in d['methods']:
+				return c, d['methods'][name]
+			c = d['base']
+		raise Unsupported(f'method {name} of {cls}')
+
+	def all_fields(self, cls: str) -> list:
+		d = self.classes_def[cls]
+		return (self.all_fields(d['base']) if d['base'] in self.classes_def else []) + list(d['fields'])
+
+	def run_body(self, owner: str, this_name: str, obj, params: list, body: list, args: list, guard):
+		"""execute a method / constructor body with the object bound to self / this -> (return value | None, object afterwards)"""
+		env = {this_name: obj}
+		for i, (pn, pt, pd) in enumerate(params):
+			if i < len(args):
+				env[pn] = self.convert(args[i], pt if self.lang == 'cpp' else None)
+			elif pd is not None:
+				env[pn] = self.convert(self.expr(pd, {}, guard), pt if self.lang == 'cpp' else None)
+			else:
+				raise Unsupported('missing argument')
+		self.depth += 1
+		if self.depth > 6:
+			raise Unsupported('call depth')
+		self.cur_class.append(owner)
+		try:
+			outs = self.block(body, env, {pn: pt for pn, pt, _ in params}, guard)
+		finally:
+			self.cur_class.pop()
+			self.depth -= 1
+		value, after = None, None
+		for cond, kind, v, en in outs:
+			if kind == 'raise':
+				self.callee_raises.append(cond)
+				continue
+			if kind not in ('return', 'fall'):
+				continue
+			if kind == 'return' and v is not None:
+				value = v if value is None else self.merge(cond, v, value)
+			o2 = en.get(this_name, obj)
+			after = o2 if after is None else self.merge(cond, o2, after)
+		return value, (after if after is not None else obj)
+
+	def invoke_method(self, obj, name: str, args: list, guard, static: str | None = None, via_self: bool = False):
+		cls = obj[1][0]
+		owner, (params, body, rtype) = self.lookup_method(static or cls, name)
+		if self.lang == 'py' and via_self and self.cur_class and self.lookup_method(self.cur_class[-1], name)[0] != owner:
+			# python dispatches self.m() on the object's class; the emitted C++ methods are not virtual
+			self.tag('non-virtual-dispatch', z3.BoolVal(False), guard)
+		value, after = self.run_body(owner, 'this' if self.lang == 'cpp' else 'self', obj, params, body, args, guard)
+		if value is not None and self.lang == 'cpp':
+			value = self.convert(value, rtype)
+		return value, after
+
+	def construct(self, cls: str, args: list, guard, obj=None):
+		d = self.classes_def[cls]
+		if self.lang == 'py':
+			obj = obj or ('obj', (cls, {}))
+			owner, (params, body, _) = self.lookup_method(cls, '__init__')
+			_, after = self.run_body(owner, 'self', obj, params, body, args, guard)
+			return ('obj', (cls, after[1][1]))
+		# C++: base constructor, then the member initialisers in *declaration* order of the fields, then the body
+		if '__init__' not in d['methods']:
+			raise Unsupported('class without constructor')
+		params, body, _ = d['methods']['__init__']
+		env = {}
+		for i, (pn, pt, pd) in enumerate(params):
+			if i < len(args):
+				env[pn] = self.convert(args[i], pt)
+			else:
+				raise Unsupported('missing constructor argument')
+		fields = dict(obj[1][1]) if obj else {f: ('int', fresh('uninit')) for f in self.all_fields(cls)}
+		if d['base'] in self.classes_def:
+			if d['super_args'] is None:
+				raise Unsupported('base class without an explicit constructor call')
+			base_obj = self.construct(d['base'], [self.expr(a, env, guard) for a in d['super_args']], guard, ('obj', (cls, fields)))
+			fields = dict(base_obj[1][1])
+		inits = dict(d['inits'] or [])
+		reads = {f: attrs_read(x) for f, x in inits.items()}
+		order = list(d['fields'])
+		for f, used in reads.items():
+			if any(u in order and f in order and order.index(u) > order.index(f) for u in used):
+				# C++ initialises members in declaration order: this initialiser reads a member declared after it
+				self.tag('member-init-declaration-order', z3.BoolVal(False), guard)
+			if any(st[0] == 'setattr' and st[1] == 'this' and st[2] in used for st in flat(body)):
+				# the constructor body stores to a member that an initialiser (hoisted in front of the body) has read
+				self.tag('ctor-initializer-hoisting', z3.BoolVal(False), guard)
+		for f in d['fields']:
+			if f in inits:
+				env_this = dict(env)
+				env_this['this'] = ('obj', (cls, dict(fields)))
+				fields[f] = self.convert(self.expr(inits[f], env_this, guard), 'int')
+		_, after = self.run_body(cls, 'this', ('obj', (cls, fields)), params, body, args, guard)
+		return ('obj', (cls, after[1][1]))
+
 	def call(self, name: str, args: list, guard):
+		if name in self.classes_def:
+			return self.construct(name, args, guard)
 		b = self.builtin(name, args, guard)
 		if b is not None:
 			return b
@@ -396,6 +538,11 @@ class Machine:
 		return value
 
 	def merge(self, cond, a, b):
+		if a[0] == 'obj' or b[0] == 'obj':
+			if a[0] != b[0] or a[1][0] != b[1][0]:
+				raise Unsupported('objects of different classes merged')
+			fa, fb = a[1][1], b[1][1]
+			return ('obj', (a[1][0], {k: (fa[k] if fa[k] is fb[k] else self.merge(cond, fa[k], fb[k])) for k in fa if k in fb}))
 		if a[0] == 'list' or b[0] == 'list':
 			if a[0] != b[0]:
 				raise Unsupported('list merged with a scalar')
@@ -530,6 +677,42 @@ class Machine:
 					fixed.append((c2, kind, v, e3))
 				outs = fixed
 			return outs
+		if k == 'setattr':
+			_, oname, field, e = st
+			if oname not in env or env[oname][0] != 'obj':
+				raise Unsupported('attribute store on a non-object')
+			v = self.expr(e, env, guard)
+			cls, fields = env[oname][1]
+			if self.lang == 'cpp':
+				if field not in fields:
+					raise Unsupported(f'store to an undeclared member {field}')
+				v = self.convert(v, 'bool' if fields[field][0] == 'bool' else 'int')
+			fields = dict(fields)
+			fields[field] = v
+			env = dict(env)
+			env[oname] = ('obj', (cls, fields))
+			return [(guard, 'fall', None, env)]
+		if k == 'mstmt':
+			call = st[1]
+			if call[0] == 'supercall':
+				# python: super().__init__(...) inside a constructor
+				owner = self.cur_class[-1] if self.cur_class else None
+				base = self.classes_def[owner]['base'] if owner in self.classes_def else None
+				if base is None or 'self' not in env:
+					raise Unsupported('super() outside a derived class')
+				_, (params, body, _) = self.lookup_method(base, call[1])
+				_, after = self.run_body(base, 'self', env['self'], params, body, [self.expr(a, env, guard) for a in call[2]], guard)
+				env = dict(env)
+				env['self'] = ('obj', (env['self'][1][0], after[1][1]))
+				return [(guard, 'fall', None, env)]
+			_, recv, mname, margs = call
+			if recv[0] != 'var' or recv[1] not in env or env[recv[1]][0] != 'obj':
+				raise Unsupported('method call statement on something that is not a local object')
+			static = self.cur_class[-1] if (self.lang == 'cpp' and recv[1] == 'this' and self.cur_class) else None
+			_, after = self.invoke_method(env[recv[1]], mname, [self.expr(a, env, guard) for a in margs], guard, static=static, via_self=recv[1] == 'self')
+			env = dict(env)
+			env[recv[1]] = ('obj', (env[recv[1]][1][0], after[1][1]))
+			return [(guard, 'fall', None, env)]
 		if k == 'foreach':
 			# ('foreach', var, list expr, body, index var | None): desugared to a counted loop over a hidden position
 			_, var, it, body, ivar = st
